@@ -84,11 +84,15 @@ def fn_stat(spec, rec):
     else:
         mask = np.ones(d.shape, dtype=bool)
     finite, positive = spec["finite"], spec["positive"]
-    if not finite and not positive and sub is None and np.isnan(vals).any():
+    compact_slice_path = sub is not None and sub["t"] == "slice" and view is None
+    if not finite and not positive and (sub is None or compact_slice_path) and np.isnan(vals).any():
         rec.label("skipped:plain-reducer-corner-with-nan")
         return
     v = vals if view is None else vals[view]
     m = mask if view is None else mask[view]
+    if v.size == 0 or v.ndim == 0:
+        rec.label("skipped:zero-size-or-0-d-view")
+        return
     axis = spec["axis"]
     if axis is not None:
         nd_v = v.ndim
@@ -116,10 +120,22 @@ def fn_stat(spec, rec):
         if blame(e)[0] != "glue":
             raise
         raise Mismatch(classify_exc(e, spec, axis, v, vs), repr(e))
-    if np.ndim(expected) == 0 and np.ndim(got) == 0:
-        ok = close(got, expected)
-    else:
-        ok = close(got, expected)
+    ok = close(got, expected)
+    if (not ok and sub is not None and sub["t"] == "slice" and view is None and axis is not None
+            and np.shape(got) != np.shape(expected) and not m.any()):
+        ok = np.ndim(got) == 0 and bool(np.isnan(got))
+        rec.label("slice-subset-empty-scalar-nan-accepted")
+    elif (not ok and sub is not None and sub["t"] == "slice" and view is None and axis is not None
+            and np.shape(got) != np.shape(expected) and m.any()):
+        # a top-level SliceSubsetState is evaluated on its own compact sub-array (Data.compute_statistic uses
+        # SliceSubsetState.to_array); no shape is documented for that path, so the compact result is accepted
+        # when it equals the expected result restricted to the slice's bounding box
+        box = [slice(*x) for x in sub["slices"]]
+        box += [slice(None)] * (m.ndim - len(box))
+        ax = (axis,) if isinstance(axis, int) else tuple(axis)
+        rs = tuple(b for k, b in enumerate(box) if k not in ax)
+        ok = close(got, np.asarray(expected)[rs])
+        rec.label("slice-subset-compact-shape-accepted")
     if not ok:
         raise Mismatch(classify_val(spec, axis, got, expected, vs, v),
                        {"got": np.asarray(got).tolist(), "expected": np.asarray(expected).tolist(), "axis": axis})
